@@ -99,6 +99,22 @@ func (f *chainFam) Reset() M {
 		&ntypes.MsgBlockSenders{Creator: a.S(), ToBlock: []string{cc.S()}},
 	)
 	f.script = s
+	if f.rng.Intn(5) == 0 { // "whale" history: the feed owner pumps the price, then maximal plans and maximal files
+		w := []sdk.Msg{
+			&otypes.MsgCreateFeed{Creator: a.S(), Name: "jklprice"},
+			&otypes.MsgUpdateFeed{Creator: a.S(), Name: "jklprice", Data: `{"price":"10000000000.0","24h_change":"0"}`},
+		}
+		big := []int64{math.MaxInt64, math.MaxInt64, math.MaxInt64/2 + 1, 1 << 62}
+		for i, who := range []*chain.Acct{a, b, cc} {
+			sz := big[f.rng.Intn(len(big))]
+			w = append(w, &stypes.MsgBuyStorage{Creator: who.S(), ForAddress: who.S(), DurationDays: 30, Bytes: sz, PaymentDenom: "ujkl"})
+			w = append(w, &stypes.MsgPostFile{Creator: who.S(), Merkle: f.files[i%len(f.files)].root, FileSize: sz, MaxProofs: 1, Note: "{}"})
+		}
+		for i, p := range []string{"p1", "p2", "p3", "p4"} {
+			w = append(w, &stypes.MsgInitProvider{Creator: c.Acct(p).S(), Ip: domURL(p, doms[i]), Keybase: "kb", TotalSpace: 1_000_000})
+		}
+		f.script = w
+	}
 	return M{}
 }
 
@@ -193,6 +209,28 @@ func (f *chainFam) Apply(st M) M {
 			msg.Expires = f.c.H + int64([]int{14400, 3 * 14400, 1, -5}[f.rng.Intn(4)])
 		}
 		return f.deliver(msg)
+	case "form": // attestation / report forms on real files, requested and signed by real provers
+		k := f.c.App.StorageKeeper
+		all := k.GetAllFileByMerkle(f.c.Ctx)
+		if len(all) == 0 {
+			return nil
+		}
+		uf := all[f.rng.Intn(len(all))]
+		if len(uf.Proofs) == 0 {
+			return nil
+		}
+		prover := strings.Split(uf.Proofs[f.rng.Intn(len(uf.Proofs))], "/")[0]
+		signer := f.c.Acct([]string{"p1", "p2", "p3", "p4"}[f.rng.Intn(4)]).S()
+		switch f.rng.Intn(4) {
+		case 0:
+			return f.deliver(&stypes.MsgRequestAttestationForm{Creator: prover, Merkle: uf.Merkle, Owner: uf.Owner, Start: uf.Start})
+		case 1:
+			return f.deliver(&stypes.MsgRequestReportForm{Creator: f.c.Acct("c").S(), Prover: prover, Merkle: uf.Merkle, Owner: uf.Owner, Start: uf.Start})
+		case 2:
+			return f.deliver(&stypes.MsgAttest{Creator: signer, Prover: prover, Merkle: uf.Merkle, Owner: uf.Owner, Start: uf.Start})
+		default:
+			return f.deliver(&stypes.MsgReport{Creator: signer, Prover: prover, Merkle: uf.Merkle, Owner: uf.Owner, Start: uf.Start})
+		}
 	case "prove": // every listed prover proves its current challenge (keeps files alive across reward blocks)
 		k := f.c.App.StorageKeeper
 		var last M
@@ -258,7 +296,9 @@ func (f *chainFam) Random(rng *rand.Rand) M {
 		return M{"a": "adv"}
 	case r < 55:
 		return M{"a": "advfile"}
-	case r < 72:
+	case r < 65:
+		return M{"a": "form"}
+	case r < 80:
 		return M{"a": "prove"}
 	}
 	return M{"a": "block"}
